@@ -10,7 +10,10 @@ use crate::util::opaque_pointer::*;
 use crate::vm::VMBinding;
 
 use std::marker::PhantomData;
+#[cfg(not(mmtk_verif))]
 use std::sync::{Mutex, MutexGuard};
+#[cfg(mmtk_verif)]
+use crate::util::verif::sync::{Mutex, MutexGuard};
 
 /// A special page resource that records some external pages that are not mmapped by us,
 /// but are used by our space (namely VM space). Unlike other page resources, we cannot
